@@ -139,7 +139,7 @@ class Runner:
     # ------------------------------------------------------------------ operations; each returns kind or None (not applicable)
     def op_construct(self):
         rng, U, P = self.rng, self.U, self.P
-        cls = rng.choice([f"{P}Un", f"{P}Bin", f"{P}List", f"{P}Lst", f"{P}Call"] + [c for c in (f"{P}Ann", f"{P}Ann", f"{P}Block", f"{P}Wrap", f"{P}Inner", f"{P}Seq", f"{P}IterBlock", f"{P}IterBlock", f"{P}OptSeq", f"{P}OptSeq") if c in U.cls])
+        cls = rng.choice([f"{P}Un", f"{P}Bin", f"{P}List", f"{P}Lst", f"{P}Call"] + [c for c in (f"{P}Paren", f"{P}Paren", f"{P}SeqFirst", f"{P}RtFirst", f"{P}Kw", f"{P}Ann", f"{P}Ann", f"{P}Block", f"{P}Wrap", f"{P}Inner", f"{P}Seq", f"{P}IterBlock", f"{P}IterBlock", f"{P}OptSeq", f"{P}OptSeq") if c in U.cls])
         kw = {}
         used: set[int] = set()
         for f in U.child_fields(cls):
